@@ -39,7 +39,6 @@ import (
 	"google.golang.org/protobuf/types/known/timestamppb"
 	"reduction.dev/reduction-protocol/handlerpb"
 	"reduction.dev/reduction/batching"
-	"reduction.dev/reduction/connectors/embedded"
 	"reduction.dev/reduction/dkv"
 	"reduction.dev/reduction/dkv/recovery"
 	"reduction.dev/reduction/dkv/storage"
@@ -62,7 +61,7 @@ func (eng) CoqRequire(mode string) string {
 func (eng) CoqCaseType(mode string) string { return "Check_align.case" }
 func (eng) CoqRun(mode string) string      { return "Check_align.run" }
 func (eng) Rule(mode string) string {
-	return "1..4 senders, 1..5 consecutive checkpoints, batch size 0(=1)..10, batch time-out on/off; every sender delivers HandleEventBatch calls through the real rpc adapters (rpc.OperatorEmbeddedClient, or rpc.OperatorConnectHandler with a connect.Request), one outstanding call per sender, batch boundaries drawn in four styles (single-event calls, short, long, cut at barriers: barrier first / in the middle / last, watermark or event right after a barrier in the same call); per-sender scripts of keyed events (unique ids, 3 subject keys, optional timer), per-sender increasing watermarks, barriers with increasing ids, occasional wrong-id barrier (alone in its call) while a checkpoint is in progress; in 40 % of the multi-runner cases some (never all) runners send SourceComplete at a random point and go on with watermarks and barriers only; in half of the cases the context of a parked call is cancelled (op cancel) while another runner's barrier is outstanding; schedules drawn from the enabled actions (gate/wake/handle/fire/timeout) with five biases (uniform, eager senders, sequential, one laggard sender, late wake-ups) plus probe handles of senders that must be parked, some cut short mid-checkpoint. Non-trivial: at least one checkpoint reported and (a sender parked, or entries pending in the batch when the last barrier arrived, or an event passed the gate before a checkpoint started and was handled during it); distinct by hash of parameters and ops."
+	return "1..4 senders, 1..5 consecutive checkpoints, batch size 0(=1)..10, batch time-out on/off; every sender delivers HandleEventBatch calls through the real rpc adapters (rpc.OperatorEmbeddedClient, or rpc.OperatorConnectHandler with a connect.Request), one outstanding call per sender, batch boundaries drawn in four styles (single-event calls, short, long, cut at barriers: barrier first / in the middle / last, watermark or event right after a barrier in the same call); per-sender scripts of keyed events (unique ids, 3 subject keys, optional timer), per-sender increasing watermarks, barriers with increasing ids, occasional wrong-id barrier (alone in its call) while a checkpoint is in progress; in 40 % of the multi-runner cases some (never all) runners send SourceComplete at a random point and go on with watermarks and barriers only; in half of the cases the context of a parked call is cancelled (op cancel) while another runner's barrier is outstanding; in a third of the cases the sink (a connectors.SinkWriter wrapper; the handler emits one sink request per entry) fails its next Write, armed right before the handling of the last barrier while entries are pending (the flush in front of db.Checkpoint) or at random; in a quarter of the multi-runner cases HandleDeploy is called on the live operator in the middle of an alignment (no call outstanding, batch empty; same runners, fresh storage) and the new assembly reuses the aborted checkpoint id; schedules drawn from the enabled actions (gate/wake/handle/fire/timeout) with five biases (uniform, eager senders, sequential, one laggard sender, late wake-ups) plus probe handles of senders that must be parked, some cut short mid-checkpoint. Non-trivial: at least one checkpoint reported and (a sender parked, or entries pending in the batch when the last barrier arrived, or an event passed the gate before a checkpoint started and was handled during it); distinct by hash of parameters and ops."
 }
 
 // ---------- case format ----------
@@ -210,6 +209,20 @@ func genCase(r *hx.Rand, idx int, tier string) *hx.Case {
 		}
 	}
 	cancels := r.Chance(1, 2)
+	faults := r.Chance(1, 3)              // sink write faults
+	redeploys := n >= 2 && r.Chance(1, 4) // HandleDeploy in the middle of an alignment, the aborted id is reused
+	if redeploys {                        // moments without an outstanding call and with an empty batch must be frequent
+		style = 2
+		maxSize = hx.Pick(r, []int{0, 1, 1, 2})
+	}
+	nRedeploy := 0
+	// the generator's estimate of "the operator's batch is certainly empty" (same rule as the executor's)
+	msz := maxSize
+	if msz == 0 {
+		msz = 1
+	}
+	gPend, gUnknown, gTimers := 0, false, false
+	var curCid uint64
 	// mirror
 	const (
 		mIdle = iota
@@ -225,6 +238,9 @@ func genCase(r *hx.Rand, idx int, tier string) *hx.Case {
 	done := 0
 	laggard := r.Intn(n)
 	bstyle := r.Intn(4) // 0: single-event batches, 1: short, 2: long, 3: batches cut right after / before barriers
+	if redeploys && (bstyle == 1 || bstyle == 2) {
+		bstyle = hx.Pick(r, []int{0, 3})
+	}
 	var ops []json.RawMessage
 	emit := func(o op) { ops = append(ops, hx.Op(o)) }
 	// the sender evaluates alignSender for its next event
@@ -291,7 +307,13 @@ func genCase(r *hx.Rand, idx int, tier string) *hx.Case {
 				emit(op{Act: "fire"})
 			} else {
 				emit(op{Act: "timeout"})
+				gUnknown = true
 			}
+			continue
+		}
+		if faults && r.Chance(1, 60) {
+			emit(op{Act: "fault"}) // hits whichever flush comes next: an error reply to that sender
+			gUnknown = true
 			continue
 		}
 		tot := 0
@@ -357,20 +379,42 @@ func genCase(r *hx.Rand, idx int, tier string) *hx.Case {
 			emit(op{Act: "wake", S: s})
 			mode[s] = mPassed
 		case "handle":
+			it := inflight[s]
+			completes := it.o.Kind == "bar" && !it.wrong && ((missing == nil && n == 1) || (missing != nil && len(missing) == 1 && missing[s]))
+			if faults && completes && gPend > 0 && !gUnknown && r.Chance(1, 2) {
+				emit(op{Act: "fault"}) // the sink write of the flush in front of db.Checkpoint fails
+			}
 			emit(op{Act: "handle", S: s})
 			mode[s] = mIdle
-			it := inflight[s]
+			switch it.o.Kind {
+			case "ev":
+				if it.o.Tm != 0 {
+					gTimers = true
+				}
+				gPend++
+				if gPend >= msz {
+					gPend = 0
+				}
+			case "wm":
+				if gTimers {
+					gUnknown = true
+				}
+			case "done":
+				gPend, gUnknown = 0, false
+			}
 			if it.o.Kind == "bar" && !it.wrong {
 				if missing == nil {
 					missing = map[int]bool{}
 					for i := 0; i < n; i++ {
 						missing[i] = true
 					}
+					curCid = it.o.Cid
 				}
 				delete(missing, s)
 				if len(missing) == 0 {
 					missing = nil
 					done++
+					gPend, gUnknown = 0, false
 				}
 			}
 			// the adapter goes on with the next event of the batch: gated at once
@@ -378,6 +422,32 @@ func genCase(r *hx.Rand, idx int, tier string) *hx.Case {
 				nx := queue[s][0]
 				queue[s] = queue[s][1:]
 				gateNext(s, nx)
+			}
+			// a redeploy in the middle of the alignment: no call outstanding, nothing pending. The runners that had
+			// delivered their barrier deliver (some events and) a barrier with the SAME id again in the new assembly.
+			if redeploys && missing != nil && nRedeploy < 2 && gPend == 0 && !gUnknown && r.Chance(3, 4) {
+				idle := true
+				for i := 0; i < n; i++ {
+					idle = idle && mode[i] == mIdle && len(queue[i]) == 0
+				}
+				if idle {
+					emit(op{Act: "redeploy"})
+					nRedeploy++
+					for i := 0; i < n; i++ {
+						if missing[i] {
+							continue
+						}
+						var ins []gItem
+						for k := r.Intn(3); k > 0; k-- {
+							ins = append(ins, gItem{o: op{Act: "gate", S: i, Kind: "ev", ID: nextID, Key: uint64(r.Range(1, 3))}})
+							nextID++
+						}
+						ins = append(ins, gItem{o: op{Act: "gate", S: i, Kind: "bar", Cid: curCid}})
+						scripts[i] = append(append(append([]gItem{}, scripts[i][:pos[i]]...), ins...), scripts[i][pos[i]:]...)
+					}
+					missing = nil
+					gTimers = false
+				}
 			}
 		}
 	}
@@ -512,6 +582,7 @@ func (h *recHandler) ProcessEventBatch(ctx context.Context, req *handlerpb.Proce
 				timers = append(timers, &timestamppb.Timestamp{Seconds: int64(tm)})
 			}
 			put(ev.KeyedEvent.Key, "e", v[0:8], timers)
+			resp.SinkRequests = append(resp.SinkRequests, &handlerpb.SinkRequest{Id: "sink", Value: v[0:8]})
 			items = append(items, fmt.Sprintf("AEv %d", id))
 			jitems = append(jitems, map[string]any{"ev": id})
 		case *handlerpb.Event_TimerExpired:
@@ -519,6 +590,7 @@ func (h *recHandler) ProcessEventBatch(ctx context.Context, req *handlerpb.Proce
 			entry := binary.BigEndian.AppendUint64(nil, ts)
 			entry = append(entry, ev.TimerExpired.Key...)
 			put(ev.TimerExpired.Key, "t", entry, nil)
+			resp.SinkRequests = append(resp.SinkRequests, &handlerpb.SinkRequest{Id: "sink", Value: entry})
 			items = append(items, fmt.Sprintf("ATm %d %d", keyNum(ev.TimerExpired.Key), ts))
 			jitems = append(jitems, map[string]any{"timer_key": keyNum(ev.TimerExpired.Key), "ts": ts})
 		}
@@ -529,6 +601,16 @@ func (h *recHandler) ProcessEventBatch(ctx context.Context, req *handlerpb.Proce
 	}
 	h.rec.add(fmt.Sprintf("ECall %d %s", wm, hx.CoqList(items, "aitem")), map[string]any{"call": jitems, "wm": wm}, false)
 	return resp, nil
+}
+
+// the sink handed to HandleDeploy: records nothing, fails its next Write when armed
+type faultSink struct{ armed atomic.Bool }
+
+func (f *faultSink) Write([]byte) error {
+	if f.armed.CompareAndSwap(true, false) {
+		return fmt.Errorf("injected sink write fault")
+	}
+	return nil
 }
 
 type recJob struct {
@@ -704,8 +786,10 @@ func (eng) Execute(mode string, c *hx.Case) (*hx.Result, error) {
 	if delay {
 		bp.MaxDelay = time.Hour
 	}
+	job := &recJob{rec: rec, dir: dir}
+	sink := &faultSink{}
 	opr := operator.NewOperator(operator.NewOperatorParams{
-		ID: "op0", Job: &recJob{rec: rec, dir: dir}, UserHandler: &recHandler{rec: rec}, EventBatching: bp,
+		ID: "op0", Job: job, UserHandler: &recHandler{rec: rec}, EventBatching: bp,
 	})
 	ctx, cancel := context.WithCancel(context.Background())
 	defer cancel()
@@ -726,7 +810,7 @@ func (eng) Execute(mode string, c *hx.Case) (*hx.Result, error) {
 	verifhook.Set(hook)
 	if err := opr.HandleDeploy(ctx, &workerpb.DeployOperatorRequest{
 		Operators: []*jobpb.NodeIdentity{{Id: "op0", Host: "h"}}, SourceRunnerIds: srIDs, KeyGroupCount: 8, StorageLocation: dir,
-	}, &embedded.RecordingSink{}); err != nil {
+	}, sink); err != nil {
 		return nil, err
 	}
 	var connectH *rpc.OperatorConnectHandler
@@ -776,6 +860,8 @@ func (eng) Execute(mode string, c *hx.Case) (*hx.Result, error) {
 	}
 	evTerm := func() (string, []any) { return evSplit(rec.take()) }
 	nCk, nParkAtCk, nPendAtCk, nInflightAtCk, nWrong, nTimeoutFlush, nStale, nGate := 0, 0, 0, 0, 0, 0, 0, 0
+	pend, pendUnknown, timersPossible := 0, false, false
+	nDeploy := 0
 	doneSent := make([]bool, n) // SourceComplete delivered by the sender
 	nDone := 0
 	ckStartedAtGate := make([]bool, n) // whether a checkpoint was in progress when the sender passed its gate
@@ -819,8 +905,12 @@ func (eng) Execute(mode string, c *hx.Case) (*hx.Result, error) {
 		}
 	}
 	// HandleEvent of sender si's current event returned
+	faultWasArmed := false // at the start of the current action
 	handled := func(si int, err error, evs []evRec, before int) {
 		s := snd[si]
+		if err != nil && s.cur.Kind != "bar" {
+			tags["sink-error-reply"] = true
+		}
 		et, ej := evSplit(evs)
 		obs = append(obs, fmt.Sprintf("OHandle %d%%nat %s %s", si, hx.CoqBool(err == nil), et))
 		var es any
@@ -836,6 +926,9 @@ func (eng) Execute(mode string, c *hx.Case) (*hx.Result, error) {
 			completed = completed || e.ck
 		}
 		if completed {
+			if faultWasArmed && !sink.armed.Load() {
+				tags["sink-fault-at-pre-checkpoint-flush"] = true
+			}
 			if nDone > 0 {
 				tags["checkpoint-after-source-complete"] = true
 			}
@@ -856,6 +949,34 @@ func (eng) Execute(mode string, c *hx.Case) (*hx.Result, error) {
 		}
 		lastWasBarrier = s.cur.Kind == "bar"
 		_ = before
+		// is the operator's batch certainly empty? (a redeploy is only executed then)
+		calls := 0
+		for _, e := range evs {
+			if !e.ck {
+				calls++
+			}
+		}
+		switch s.cur.Kind {
+		case "ev":
+			if s.cur.Tm != 0 {
+				timersPossible = true
+			}
+			if calls > 0 {
+				pend, pendUnknown = 0, false
+			} else {
+				pend++
+			}
+		case "wm":
+			if timersPossible {
+				pendUnknown = true
+			}
+		case "bar":
+			if completed {
+				pend, pendUnknown = 0, false
+			}
+		case "done":
+			pend, pendUnknown = 0, false
+		}
 	}
 	for _, raw := range c.Ops {
 		if aborted {
@@ -890,6 +1011,7 @@ func (eng) Execute(mode string, c *hx.Case) (*hx.Result, error) {
 			}
 		}
 		lastWasBarrier = false
+		faultWasArmed = sink.armed.Load()
 		s := snd[o.S]
 		switch o.Act {
 		case "gate":
@@ -1037,7 +1159,44 @@ func (eng) Execute(mode string, c *hx.Case) (*hx.Result, error) {
 				obs = append(obs, "OTimerFire")
 				jobs = append(jobs, "fire")
 			}
+		case "fault":
+			if sink.armed.CompareAndSwap(false, true) {
+				obs = append(obs, "OFault")
+				jobs = append(jobs, "sink fault armed")
+				tags["sink-fault"] = true
+			}
+		case "redeploy":
+			// HandleDeploy on the live operator: same runners, fresh storage, nothing to restore; only while no call
+			// is outstanding and the operator's batch is certainly empty
+			idle := true
+			for _, x := range snd {
+				idle = idle && x.mode == 0
+			}
+			if !idle || pend > 0 || pendUnknown {
+				continue
+			}
+			nDeploy++
+			job.dir = filepath.Join(dir, fmt.Sprintf("d%d", nDeploy))
+			if err := opr.HandleDeploy(ctx, &workerpb.DeployOperatorRequest{
+				Operators: []*jobpb.NodeIdentity{{Id: "op0", Host: "h"}}, SourceRunnerIds: srIDs, KeyGroupCount: 8, StorageLocation: job.dir,
+			}, sink); err != nil {
+				return nil, err
+			}
+			obs = append(obs, "ODeploy")
+			jobs = append(jobs, "redeploy")
+			if inProgress {
+				tags["redeploy-mid-alignment"] = true
+			} else {
+				tags["redeploy"] = true
+			}
+			inProgress, timersPossible, nDone = false, false, 0
+			for i := range doneSent {
+				doneSent[i], ckStartedAtGate[i] = false, false
+			}
 		case "timeout":
+			if sink.armed.Load() {
+				continue // a failing time-out flush makes processEvents return: the operator would stop
+			}
 			f := tm.pop()
 			if f == nil {
 				continue
@@ -1051,6 +1210,7 @@ func (eng) Execute(mode string, c *hx.Case) (*hx.Result, error) {
 				jobs = append(jobs, map[string]any{"timeout": ej})
 				if len(ej) > 0 {
 					nTimeoutFlush++
+					pend, pendUnknown = 0, false
 				} else {
 					nStale++
 				}
